@@ -19,13 +19,14 @@ import (
 
 func checkOrderIndexIntegrity(c *Ctx, rule string) {
 	p := c.P
+	ro := p.rolesOf("MemoryStore")
 	nIns, nRebuild := 0, 0
 	for _, fn := range p.MethodsOf("queue", "MemoryStore") {
 		for _, b := range fn.Blocks {
 			for _, ins := range b.Instrs {
 				switch x := ins.(type) {
 				case *ssa.MapUpdate:
-					if _, f, ok := fieldOfLoad(x.Map); !ok || f != "items" {
+					if _, f, ok := fieldOfLoad(x.Map); !ok || f != ro.items {
 						continue
 					}
 					nIns++
@@ -41,7 +42,7 @@ func checkOrderIndexIntegrity(c *Ctx, rule string) {
 							if !ok {
 								continue
 							}
-							if _, f, _ := fieldAddrName(fa); f != "order" {
+							if _, f, _ := fieldAddrName(fa); f != ro.order {
 								continue
 							}
 							if call, ok := st.Val.(*ssa.Call); ok {
@@ -60,13 +61,13 @@ func checkOrderIndexIntegrity(c *Ctx, rule string) {
 					if !ok {
 						continue
 					}
-					if tn, f, _ := fieldAddrName(fa); tn != "MemoryStore" || f != "order" {
+					if tn, f, _ := fieldAddrName(fa); tn != "MemoryStore" || f != ro.order {
 						continue
 					}
 					// append(order, id): growth
 					if call, ok := x.Val.(*ssa.Call); ok {
 						if bi, ok := call.Call.Value.(*ssa.Builtin); ok && bi.Name() == "append" {
-							if _, f, ok := fieldOfLoad(call.Call.Args[0]); ok && f == "order" {
+							if _, f, ok := fieldOfLoad(call.Call.Args[0]); ok && f == ro.order {
 								continue
 							}
 						}
@@ -75,14 +76,14 @@ func checkOrderIndexIntegrity(c *Ctx, rule string) {
 					construct := fmt.Sprintf("memory.%s:index rebuild#%d keeps every stored id", fn.Name(), nRebuild)
 					// reset to empty: order[:0] behind len(items) == 0
 					if sl, ok := x.Val.(*ssa.Slice); ok {
-						if _, f, ok := fieldOfLoad(sl.X); ok && f == "order" {
+						if _, f, ok := fieldOfLoad(sl.X); ok && f == ro.order {
 							emptyOK := false
 							for _, pc := range dominatingConds(b, nil) {
 								if bo, ok := pc.Cond.(*ssa.BinOp); ok {
 									a := condAtom(bo, pc.Val)
 									if call, ok := a.X.(*ssa.Call); ok {
 										if bi, ok := call.Call.Value.(*ssa.Builtin); ok && bi.Name() == "len" {
-											if _, f2, ok := fieldOfLoad(call.Call.Args[0]); ok && f2 == "items" && a.Op == token.EQL && isIntConst(a.Y, 0) {
+											if _, f2, ok := fieldOfLoad(call.Call.Args[0]); ok && f2 == ro.items && a.Op == token.EQL && isIntConst(a.Y, 0) {
 												emptyOK = true
 											}
 										}
@@ -109,13 +110,13 @@ func checkOrderIndexIntegrity(c *Ctx, rule string) {
 							case *ssa.BinOp:
 								a := condAtom(cnd, pc.Val)
 								if lk, ok := a.X.(*ssa.Lookup); ok {
-									if _, f, ok := fieldOfLoad(lk.X); ok && f == "items" && isNilConst(a.Y) && a.Op == token.NEQ {
+									if _, f, ok := fieldOfLoad(lk.X); ok && f == ro.items && isNilConst(a.Y) && a.Op == token.NEQ {
 										continue
 									}
 								}
 								if ex, ok := a.X.(*ssa.Extract); ok {
 									if lk, ok := ex.Tuple.(*ssa.Lookup); ok {
-										if _, f, ok := fieldOfLoad(lk.X); ok && f == "items" {
+										if _, f, ok := fieldOfLoad(lk.X); ok && f == ro.items {
 											continue
 										}
 									}
@@ -131,12 +132,59 @@ func checkOrderIndexIntegrity(c *Ctx, rule string) {
 								desc = fmt.Sprintf("%s %s %s", shortVal(a.X), a.Op, shortVal(a.Y))
 							case *ssa.Extract:
 								if lk, ok := cnd.Tuple.(*ssa.Lookup); ok {
-									if _, f, ok := fieldOfLoad(lk.X); ok && f == "items" {
+									if _, f, ok := fieldOfLoad(lk.X); ok && f == ro.items {
 										continue
 									}
 								}
 							}
 							bad = desc
+						}
+					}
+					// and conversely: once an id is known to be present, every path of the iteration reaches the append
+					// (a disjunctive extra test such as `state == queued || state == leased` has no single dominating edge)
+					for _, app := range apps {
+						h := loopHeaderOf(app.Block())
+						if h == nil {
+							continue
+						}
+						body := loopBody(h)
+						var present []*ssa.BasicBlock
+						for bb := range body {
+							for i := range bb.Succs {
+								a, ok := edgeAtom(Edge{bb, i})
+								if !ok {
+									continue
+								}
+								isItems := false
+								if lk, ok := a.X.(*ssa.Lookup); ok {
+									if _, f, ok := fieldOfLoad(lk.X); ok && f == ro.items && isNilConst(a.Y) && a.Op == token.NEQ {
+										isItems = true
+									}
+								}
+								if ex, ok := a.X.(*ssa.Extract); ok && ex.Index == 1 {
+									if lk, ok := ex.Tuple.(*ssa.Lookup); ok {
+										if _, f, ok := fieldOfLoad(lk.X); ok && f == ro.items && ((a.Op == token.EQL && isBoolTrue(a.Y)) || (a.Op == token.NEQ && !isBoolTrue(a.Y))) {
+											isItems = true
+										}
+									}
+								}
+								if isItems {
+									present = append(present, bb.Succs[i])
+								}
+							}
+						}
+						if len(present) == 0 {
+							continue
+						}
+						stop := map[*ssa.BasicBlock]bool{app.Block(): true}
+						par := reach(present, nil, stop)
+						if _, back := par[h]; back && !stop[h] {
+							for _, st := range present {
+								if st == app.Block() {
+									continue
+								}
+							}
+							bad = "an id that is present in the item table can still skip the append (a further test between the presence check and the append)"
 						}
 					}
 					c.Check(bad == "", rule, construct, p.InstrPos(x), "an id is kept iff it is present in the item table",
